@@ -13,6 +13,7 @@ type Program struct {
 	Entries   []*Entry `json:"entries"`
 	Unordered bool     `json:"unordered,omitempty"` // traces compared as multisets (map ranges with >= 2 entries)
 	TestFile  bool     `json:"test_file,omitempty"` // rendered into a _test.go file
+	Twin      string   `json:"twin,omitempty"`      // "yieldfrom-to-range": a metamorphic twin is compiled alongside (C05)
 }
 
 type Param struct {
